@@ -39,15 +39,15 @@ const c31KeyBlockTickets = "unverified-tickets-of-received-block-counted"
 
 // ticket grammar
 const (
-	c31Valid     = "valid"            // miner i signs the block hash
-	c31Sharder   = "sharder"          // a sharder of the magic block signs the block hash
-	c31Outsider  = "outsider"         // a well-formed key outside the magic block signs the block hash
-	c31UnknownID = "unknown_id"       // an id nobody has, garbage signature
-	c31OtherHash = "other_hash"       // miner i's valid signature over another hash
-	c31WrongKey  = "wrong_key"        // verifier id of miner i, signature made by miner k != i
-	c31Garbage   = "garbage_sig"      // verifier id of miner i, signature is not a signature
-	c31EmptySig  = "empty_sig"        // verifier id of miner i, empty signature
-	c31OtherCase = "valid_other_case" // miner i's valid signature spelled in another letter case (hex decoding ignores case): one more textual form of a ticket of miner i
+	c31Valid     = "valid"             // miner i signs the block hash
+	c31Sharder   = "sharder"           // a sharder of the magic block signs the block hash
+	c31Outsider  = "outsider"          // a well-formed key outside the magic block signs the block hash
+	c31UnknownID = "unknown_id"        // an id nobody has, garbage signature
+	c31OtherHash = "other_hash"        // miner i's valid signature over another hash
+	c31WrongKey  = "wrong_key"         // verifier id of miner i, signature made by miner k != i
+	c31Garbage   = "garbage_sig"       // verifier id of miner i, signature is not a signature
+	c31EmptySig  = "empty_sig"         // verifier id of miner i, empty signature
+	c31OtherCase = "valid_other_case"  // miner i's valid signature spelled in another letter case (hex decoding ignores case): one more textual form of a ticket of miner i
 	c31Dup       = "duplicate_of_prev" // the previous list entry again
 )
 
@@ -66,6 +66,7 @@ type c31Msg struct {
 	JSON    bool
 	VTs     []*block.VerificationTicket // set when the tickets were materialized at generation time (ticket bursts)
 	Late    bool                        // the worker picks the message up when its processing context has already run out
+	Busy    bool                        // all ticket-verification slots of the node are taken by other verifications while the message is processed
 }
 
 func c31Materialize(e *e3Engine, tks []c31Tk, hash, otherHash string) []*block.VerificationTicket {
@@ -357,6 +358,7 @@ func TestC31_Notarization(t *testing.T) {
 		for i := 0; i < nMsgs; i++ {
 			m := c31Msg{Kind: kinds[rapid.IntRange(0, len(kinds)-1).Draw(t, "msgKind")], JSON: rapid.IntRange(0, 3).Draw(t, "json") == 0}
 			m.Late = rapid.IntRange(0, 9).Draw(t, "late") == 6
+			m.Busy = m.Kind == "block" && rapid.IntRange(0, 7).Draw(t, "verificationSlotsBusy") == 5
 			switch m.Kind {
 			case "ticket":
 				if rapid.IntRange(0, 2).Draw(t, "burst") == 0 {
@@ -521,7 +523,14 @@ func TestC31_Notarization(t *testing.T) {
 				if qm := next(40 * time.Millisecond); qm != nil {
 					validHere, total, _ := account(qm)
 					c31Late = m.Late
-					c31Dispatch(mc, qm)
+					if m.Busy {
+						release := mc.VerifOccupyTicketSlots()
+						c31Dispatch(mc, qm)
+						release()
+						st.Class("processed_with_all_verification_slots_busy/" + m.Kind)
+					} else {
+						c31Dispatch(mc, qm)
+					}
 					c31Late = false
 					if m.Late {
 						st.Class("processed_with_expired_context/" + m.Kind)
